@@ -180,7 +180,7 @@ def v3_insert(stream, ops):
     return bytes(out)
 
 
-def write_hfe(path, sides, ntracks, enc, version=1, pad_to=256):
+def write_hfe(path, sides, ntracks, enc, version=1, pad_to=256, exact_len=False):
     """sides: list (1 or 2) of lists of per-track byte streams."""
     nsides = len(sides)
     hdr = bytearray(b"\xff" * 512)
@@ -201,6 +201,7 @@ def write_hfe(path, sides, ntracks, enc, version=1, pad_to=256):
         s0 = sides[0][t]
         s1 = sides[1][t] if nsides > 1 else b""
         n = max(len(s0), len(s1))
+        raw_n = n
         n = (n + pad_to - 1) // pad_to * pad_to
         n = (n + 255) // 256 * 256
         s0 = s0.ljust(n, b"\0")
@@ -208,7 +209,8 @@ def write_hfe(path, sides, ntracks, enc, version=1, pad_to=256):
         data = bytearray()
         for p in range(0, n, 256):
             data += s0[p:p + 256] + s1[p:p + 256]
-        lut[4 * t:4 * t + 4] = struct.pack("<HH", blk, len(data))
+        # real HFE files record the unpadded length (both sides); the data itself is stored in whole 512-byte blocks
+        lut[4 * t:4 * t + 4] = struct.pack("<HH", blk, 2 * raw_n if exact_len else len(data))
         body += data
         blk += (len(data) + 511) // 512
         if len(body) % 512:
@@ -247,7 +249,7 @@ def write_hxcmfm(path, sides, ntracks):
     return path
 
 
-def image_to_flux(img, ntracks, spt, enc, fmt, path, nsides=1, order=None, gaps=None, ops=None, side1_head=1, version=1, skew=0):
+def image_to_flux(img, ntracks, spt, enc, fmt, path, nsides=1, order=None, gaps=None, ops=None, side1_head=1, version=1, skew=0, exact_len=False):
     """img: bytes of a non-interleaved sector dump (side 0 then side 1).  fmt: 'hfe' | 'mfm'."""
     gaps = gaps or {}
     sides = []
@@ -270,5 +272,5 @@ def image_to_flux(img, ntracks, spt, enc, fmt, path, nsides=1, order=None, gaps=
                 tr.append(cells_to_bytes_msb(tk.cells))
         sides.append(tr)
     if fmt == "hfe":
-        return write_hfe(path, sides, ntracks, enc, version=version)
+        return write_hfe(path, sides, ntracks, enc, version=version, exact_len=exact_len)
     return write_hxcmfm(path, sides, ntracks)
